@@ -1,9 +1,12 @@
 """pyvc.solve -- discharge obligations  pc => goal  with z3 (cvc5 takes z3's unknowns).
 
-Hygiene rules (DESIGN 2.1): goals are skolemised by the engine; quantified hypotheses (class Q) are instantiated here
-at the index terms of the query; array cells are plain constants related by Ackermann constraints; hypotheses are
-sliced in stages (constants subset of the goal's / cone of influence / all) -- `unsat` at any stage is a proof, a
-`sat` counts only at the last stage, and only as *trusted* if no quantified hypothesis was left partially instantiated.
+Hygiene rules (DESIGN 2.1): goals are skolemised by the engine; a goal  A => B  is split into hypothesis A and goal B,
+a conjunction into separate queries; quantified hypotheses (class Q) are instantiated here by a counter-model guided
+loop (instances that the current candidate model violates are added, until unsat or no violated instance is left);
+array cells are plain constants related by Ackermann constraints; hypotheses are sliced in stages (constants subset
+of the goal's / cone of influence / all) -- `unsat` at any stage is a proof, a `sat` counts only at the last stage,
+and is *trusted* only if no quantified hypothesis was involved.  In "uf" array mode the quantified hypotheses are also
+handed to z3 as genuine quantifiers as a last resort (only `unsat` is used from that stage).
 """
 import os
 import subprocess
@@ -28,128 +31,137 @@ def _consts(e, acc=None):
         if i in seen:
             continue
         seen.add(i)
-        if z3.is_const(x) and x.decl().kind() == z3.Z3_OP_UNINTERPRETED:
-            acc.add(x.decl().name())
-        elif z3.is_app(x) and x.decl().kind() == z3.Z3_OP_UNINTERPRETED:
+        if z3.is_app(x) and x.decl().kind() == z3.Z3_OP_UNINTERPRETED:
             acc.add(x.decl().name())
         todo += x.children()
     return acc
 
 
-def _int_terms_of_cells(cells, names):
-    """index terms of the cells whose constant occurs among `names`"""
-    out = {}
+def _index_terms(exprs, acc, limit=400):
+    """Int-sorted uninterpreted constants / applications and the integer arguments of uninterpreted functions"""
+    todo = list(exprs)
+    vis = set()
+    while todo and len(acc) < limit:
+        x = todo.pop()
+        if x.get_id() in vis:
+            continue
+        vis.add(x.get_id())
+        if z3.is_quantifier(x):
+            continue
+        if z3.is_app(x) and x.decl().kind() == z3.Z3_OP_UNINTERPRETED:
+            if z3.is_int(x):
+                acc.setdefault(x.sexpr(), x)
+            for a_ in x.children():
+                if z3.is_int(a_):
+                    acc.setdefault(a_.sexpr(), a_)
+        todo += x.children()
+    return acc
+
+
+def _cell_index_terms(cells, names, acc):
     for key, (arr, terms, v, dtype) in cells.items():
         vs = v if isinstance(v, tuple) else (v,)
         if any(x.decl().name() in names for x in vs):
             for t in terms:
-                if z3.is_int(t) and not z3.is_int_value(z3.simplify(t)):
-                    out[z3.simplify(t).sexpr()] = z3.simplify(t)
-    return out
+                if z3.is_int(t):
+                    t = z3.simplify(t)
+                    acc.setdefault(t.sexpr(), t)
+    return acc
 
 
-def _skolems(goal_consts):
-    return [n for n in goal_consts if n.startswith("sk!") or n.startswith("sk_")]
+class Problem:
+    def __init__(self, ob, hints=()):
+        self.ob = ob
+        self.cells = dict(ob.get("cells") or {})
+        self.ground = [h for h in ob["pc"] if not isinstance(h, Q)]
+        self.qs = [h for h in ob["pc"] if isinstance(h, Q)]
+        self.goal = ob["goal"]
+        self.uf = ob.get("array_mode") == "uf"
+        self.tmp = Ctx(check_feasible=False)
+        self.tmp.cells = self.cells
+        self.tmp.array_mode = ob.get("array_mode", "cells")
+        self.tmp.counter = iter(range(10 ** 6, 10 ** 7))
+        self.hints = [core.lift(t).t for t in hints]
+        self.inst_cache = {}
 
+    def instance(self, qi, cmb):
+        key = (qi,) + tuple(t.sexpr() for t in cmb)
+        if key in self.inst_cache:
+            return self.inst_cache[key]
+        prev = core._CUR[0]
+        core._CUR[0] = self.tmp
+        try:
+            q = self.qs[qi]
+            args = [SNum(t, "int") if z3.is_int(t) else SNum(t, "real") for t in cmb]
+            try:
+                it_ = q.inst(*args)
+            except (core.Undecided, core.PathRaise):
+                it_ = None
+        finally:
+            core._CUR[0] = prev
+        if it_ is not None and z3.is_implies(it_):
+            gd = z3.simplify(it_.arg(0))
+            if z3.is_false(gd):
+                it_ = None
+            elif z3.is_true(gd):
+                it_ = it_.arg(1)
+        if it_ is not None and z3.is_true(it_):
+            it_ = None
+        self.inst_cache[key] = it_
+        return it_
 
-class Prepared:
-    pass
+    def combos(self, qi, terms):
+        q = self.qs[qi]
+        ints = [t for t in terms if z3.is_int(t)]
+        if all(s_ == "int" for s_ in q.sorts):
+            if len(q.sorts) == 1:
+                return [(t,) for t in ints]
+            if len(q.sorts) == 2:
+                return [(a, b) for a in ints[:48] for b in ints[:48]]
+        return []
 
+    def side_facts(self):
+        """facts assumed while evaluating quantifier bodies (e.g. witnesses of min/max)"""
+        return [h for h in self.tmp.pc if not isinstance(h, Q)]
 
-def prepare(ob, hints=(), max_terms=14, rounds=2):
-    """instantiate quantified hypotheses, add Ackermann constraints.  -> Prepared(hyps, goal, complete)"""
-    cells = dict(ob.get("cells") or {})
-    ground = [h for h in ob["pc"] if not isinstance(h, Q)]
-    qs = [h for h in ob["pc"] if isinstance(h, Q)]
-    goal = ob["goal"]
-    tmp = Ctx(check_feasible=False)
-    tmp.cells = cells
-    tmp.counter = iter(range(10 ** 6, 10 ** 7))
-    prev = core._CUR[0]
-    core._CUR[0] = tmp
-    try:
-        insts = []
-        seen = set()
-        complete = not qs
-        for rnd in range(rounds):
-            names = _consts(goal)
-            for h in ground + insts:
-                pass
-            # candidate index terms: those indexing cells that occur in the goal or in instances so far, + int consts of goal
-            rel = set(names)
-            for h in insts:
-                rel |= _consts(h)
-            terms = _int_terms_of_cells(cells, rel)
-            for n in names:
-                pass
-            for t in hints:
-                tt = core.lift(t).t
-                terms[z3.simplify(tt).sexpr()] = z3.simplify(tt)
-            # integer constants (skolems, loop positions) occurring in the goal
-            todo = [goal]
-            vis = set()
-            while todo:
-                x = todo.pop()
-                if x.get_id() in vis:
-                    continue
-                vis.add(x.get_id())
-                if z3.is_const(x) and z3.is_int(x) and x.decl().kind() == z3.Z3_OP_UNINTERPRETED:
-                    terms[x.sexpr()] = x
-                todo += x.children()
-            tl = sorted(terms.items(), key=lambda kv: (len(kv[0]), kv[0]))[:max_terms]
-            for q in qs:
-                if len(q.sorts) == 1:
-                    combos = [(t,) for _, t in tl]
-                elif len(q.sorts) == 2:
-                    combos = [(a, b) for _, a in tl[:8] for _, b in tl[:8]]
-                else:
-                    combos = []
-                for cmb in combos:
-                    key = (id(q),) + tuple(t.sexpr() for t in cmb)
-                    if key in seen:
+    def ackermann(self, formulas):
+        if self.uf:
+            return []
+        names = set()
+        for f in formulas:
+            names |= _consts(f)
+        by_arr = {}
+        for key, (arr, terms, v, dtype) in self.cells.items():
+            vs = v if isinstance(v, tuple) else (v,)
+            if any(x.decl().name() in names for x in vs):
+                by_arr.setdefault(arr, []).append((terms, vs))
+        ack = []
+        for arr, lst in by_arr.items():
+            for i in range(len(lst)):
+                for j in range(i + 1, len(lst)):
+                    (t1, v1), (t2, v2) = lst[i], lst[j]
+                    eqs = [a == b for a, b in zip(t1, t2)]
+                    cond = z3.simplify(z3.And(*eqs)) if eqs else z3.BoolVal(True)
+                    if z3.is_false(cond):
                         continue
-                    seen.add(key)
-                    try:
-                        args = [SNum(t, "int") for t in cmb]
-                        it_ = q.inst(*args)
-                        if z3.is_implies(it_):
-                            gd = z3.simplify(it_.arg(0))
-                            if z3.is_false(gd):
-                                continue
-                            it_ = it_.arg(1) if z3.is_true(gd) else z3.Implies(gd, it_.arg(1))
-                        if not z3.is_true(it_):
-                            insts.append(it_)
-                    except (core.Undecided, core.PathRaise):
-                        continue
-    finally:
-        core._CUR[0] = prev
-    hyps = ground + insts + [h for h in tmp.pc if not isinstance(h, Q)]
-    # Ackermann constraints between cells of the same array
-    by_arr = {}
-    allnames = _consts(goal)
-    for h in hyps:
-        allnames |= _consts(h)
-    for key, (arr, terms, v, dtype) in cells.items():
-        vs = v if isinstance(v, tuple) else (v,)
-        if any(x.decl().name() in allnames for x in vs):
-            by_arr.setdefault(arr, []).append((terms, vs))
-    ack = []
-    for arr, lst in by_arr.items():
-        for i in range(len(lst)):
-            for j in range(i + 1, len(lst)):
-                (t1, v1), (t2, v2) = lst[i], lst[j]
-                eqs = [a == b for a, b in zip(t1, t2)]
-                cond = z3.simplify(z3.And(*eqs)) if eqs else z3.BoolVal(True)
-                if z3.is_false(cond):
-                    continue
-                ack.append(z3.Implies(cond, z3.And(*[a == b for a, b in zip(v1, v2)])))
-    p = Prepared()
-    p.hyps = hyps + ack
-    p.goal = goal
-    p.complete = complete
-    p.n_inst = len(insts)
-    p.n_ack = len(ack)
-    return p
+                    ack.append(z3.Implies(cond, z3.And(*[a == b for a, b in zip(v1, v2)])))
+        return ack
+
+    def natives(self):
+        out = []
+        if not (self.qs and self.uf):
+            return out
+        prev = core._CUR[0]
+        core._CUR[0] = self.tmp
+        try:
+            for k, q in enumerate(self.qs):
+                try:
+                    out.append(q.native("%d" % k))
+                except (core.Undecided, core.PathRaise):
+                    pass
+        finally:
+            core._CUR[0] = prev
+        return out
 
 
 def _slice_min(hyps, goal):
@@ -207,9 +219,6 @@ def _run_cvc5(smt2, timeout_s):
 
 
 def _split_goal(hyps, goal, out):
-    """pc |- A => B  becomes  pc, A |- B ;  pc |- B1 and B2  becomes two queries (hygiene rule 7: integer guards end
-    up as hypotheses that slicing drops from a purely real consequent)"""
-    goal = z3.simplify(goal, som=False) if False else goal
     if z3.is_implies(goal):
         _split_goal(hyps + [goal.arg(0)], goal.arg(1), out)
     elif z3.is_and(goal) and goal.num_args() <= 12:
@@ -219,21 +228,164 @@ def _split_goal(hyps, goal, out):
         out.append((hyps, goal))
 
 
+def _check(hyps, neg, timeout_ms):
+    s = z3.Solver()
+    s.set("timeout", int(timeout_ms))
+    s.add(*hyps)
+    s.add(neg)
+    return s, s.check()
+
+
+def _staged(hyps, goal, timeout_ms, use_cvc5):
+    """-> (verdict 'unsat'|'sat'|'unknown', backend, stage, solver-or-None)"""
+    neg = z3.Not(goal)
+    stages = [("min", _slice_min(hyps, goal)), ("cone", _slice_cone(hyps, goal)), ("all", hyps)]
+    uniq = []
+    for nm, hy in stages:
+        if uniq and len(hy) == len(uniq[-1][1]):
+            continue
+        uniq.append((nm, hy))
+    res = ("unknown", "z3", "all", None)
+    for nm, hy in uniq:
+        last = nm == uniq[-1][0]
+        s, r = _check(hy, neg, timeout_ms if last else max(1000, timeout_ms // 3))
+        if r == z3.unsat:
+            return ("unsat", "z3", nm, None)
+        if r == z3.unknown:
+            if use_cvc5:
+                if _run_cvc5(s.to_smt2(), max(2.0, timeout_ms / 1000.0)) == "unsat":
+                    return ("unsat", "cvc5", nm, None)
+            res = ("unknown", "z3+cvc5" if use_cvc5 else "z3", nm, None)
+        elif last:
+            return ("sat", "z3", nm, s)
+    return res
+
+
+def _solve_part(P, extra, goal, timeout_ms, use_cvc5, t0):
+    if z3.is_true(z3.simplify(goal)):
+        return dict(verdict="valid", backend="syntactic", stage="trivial")
+    base = P.ground + extra
+    insts = []
+    seen = set()
+
+    def add(it_):
+        if it_ is None:
+            return False
+        k = it_.get_id()
+        if k in seen:
+            return False
+        seen.add(k)
+        insts.append(it_)
+        return True
+
+    gnames = _consts(goal)
+    for e_ in extra:
+        gnames |= _consts(e_)
+    if P.qs:
+        terms = {}
+        _index_terms([goal] + extra, terms)
+        _cell_index_terms(P.cells, gnames, terms)
+        for t in P.hints:
+            terms.setdefault(z3.simplify(t).sexpr(), z3.simplify(t))
+        tl = list(terms.values())[:16]
+        for qi in range(len(P.qs)):
+            for cmb in P.combos(qi, tl[:10] if len(P.qs[qi].sorts) > 1 else tl):
+                add(P.instance(qi, cmb))
+    rounds = 12 if P.qs else 1
+    final = None
+    pool = None
+    for rnd in range(rounds):
+        hy = base + insts + P.side_facts()
+        hy = hy + P.ackermann(hy + [goal])
+        v, backend, stage, solver = _staged(hy, goal, timeout_ms, use_cvc5)
+        if v == "unsat":
+            return dict(verdict="valid", backend=backend, stage=stage if not P.qs else "%s/inst-round-%d" % (stage, rnd), n_inst=len(insts))
+        final = (v, backend, stage, solver)
+        if v == "unknown" or not P.qs:
+            break
+        # sat with quantified hypotheses: add the instances the candidate model violates
+        m = solver.model()
+        if pool is None:
+            # candidate terms: generation 0 (goal, ground hypotheses) and generation 1 (first-round instances); the pool
+            # is then frozen -- otherwise each candidate model breeds new nested terms and the loop never converges
+            terms = {}
+            _index_terms([goal] + extra, terms)
+            _index_terms(insts, terms)
+            _index_terms(base, terms)
+            allnames = set(gnames)
+            for h in hy:
+                allnames |= _consts(h)
+            _cell_index_terms(P.cells, allnames, terms)
+            pool = list(terms.values())[:60]
+        tl = pool
+        added = 0
+        for qi in range(len(P.qs)):
+            for cmb in P.combos(qi, tl):
+                it_ = P.instance(qi, cmb)
+                if it_ is None or it_.get_id() in seen:
+                    continue
+                try:
+                    val = m.eval(it_, model_completion=True)
+                except z3.Z3Exception:
+                    continue
+                if z3.is_false(val):
+                    if add(it_):
+                        added += 1
+                if added >= 150:
+                    break
+        if added == 0:
+            break
+        if time.time() - t0 > 6 * timeout_ms / 1000.0:
+            break
+    v, backend, stage, solver = final
+    if P.qs and P.uf:
+        nat = P.natives()
+        if nat:
+            hy = base + insts + P.side_facts()
+            s, r = _check(hy + nat, z3.Not(goal), timeout_ms)
+            if r == z3.unsat:
+                return dict(verdict="valid", backend="z3-quant", stage="native-quantifiers", n_inst=len(insts))
+    if v == "sat":
+        m = solver.model()
+        model = {}
+        for d in m.decls():
+            if d.arity() == 0:
+                model[d.name()] = _val(m[d])
+        cellvals = []
+        for key, (arr, terms_, vv, dtype) in P.cells.items():
+            try:
+                idx = tuple(_val(m.eval(t, model_completion=True)) for t in terms_)
+                vs = vv if isinstance(vv, tuple) else (vv,)
+                val = tuple(_val(m.eval(x, model_completion=True)) for x in vs)
+                cellvals.append((arr, idx, val if len(val) > 1 else val[0]))
+            except Exception:
+                pass
+        if P.uf:       # uf-mode arrays: function interpretations sampled at small indices
+            for d in m.decls():
+                if d.arity() == 1 and d.domain(0) == z3.IntSort():
+                    for iv in range(0, 24):
+                        try:
+                            cellvals.append((d.name(), (iv,), _val(m.eval(d(z3.IntVal(iv)), model_completion=True))))
+                        except Exception:
+                            pass
+        return dict(verdict="refuted", backend="z3", stage=stage, model=model, cells=cellvals, trusted=not P.qs, n_inst=len(insts),
+                    solver_output="sat\n" + "\n".join("%s = %s" % kv for kv in sorted(model.items(), key=lambda kv: kv[0])[:80]))
+    return dict(verdict="unknown", backend=backend, stage=stage, n_inst=len(insts), reason="solver unknown")
+
+
 def discharge(ob, timeout_ms=10000, use_cvc5=True, hints=()):
     """-> dict(verdict valid|refuted|unknown, backend, time_s, model, trusted, stage)"""
     t0 = time.time()
     if ob.get("trivial"):
         return dict(verdict="valid", backend="syntactic", time_s=0.0, stage="trivial")
-    p = prepare(ob, hints=hints)
+    P = Problem(ob, hints=hints)
     parts = []
-    _split_goal([], p.goal, parts)
-    if len(parts) == 1 and not parts[0][0]:
-        return _discharge1(ob, p, p.hyps, p.goal, timeout_ms, use_cvc5, t0)
+    _split_goal([], P.goal, parts)
     worst = None
     backends = set()
     stage = ""
     for extra, g in parts:
-        r = _discharge1(ob, p, p.hyps + extra, g, timeout_ms, use_cvc5, t0)
+        r = _solve_part(P, extra, g, timeout_ms, use_cvc5, t0)
         if r["verdict"] == "refuted":
             r["time_s"] = time.time() - t0
             return r
@@ -245,68 +397,11 @@ def discharge(ob, timeout_ms=10000, use_cvc5=True, hints=()):
         worst["time_s"] = time.time() - t0
         return worst
     return dict(verdict="valid", backend="+".join(sorted(b for b in backends if b)), time_s=time.time() - t0, stage=stage,
-                n_inst=p.n_inst, n_ack=p.n_ack, parts=len(parts))
-
-
-def _discharge1(ob, p, hyps_all, goal, timeout_ms, use_cvc5, t0):
-    class _P:
-        pass
-    q = _P()
-    q.hyps, q.goal, q.complete, q.n_inst, q.n_ack = hyps_all, goal, p.complete, p.n_inst, p.n_ack
-    p = q
-    if z3.is_true(z3.simplify(goal)):
-        return dict(verdict="valid", backend="syntactic", time_s=time.time() - t0, stage="trivial", n_inst=p.n_inst, n_ack=p.n_ack)
-    neg = z3.Not(goal)
-    stages = [("min", _slice_min(p.hyps, goal)), ("cone", _slice_cone(p.hyps, goal)), ("all", p.hyps)]
-    last = None
-    uniq = []
-    for nm, hy in stages:
-        if uniq and len(hy) == len(uniq[-1][1]):
-            continue
-        uniq.append((nm, hy))
-    unknown_smt2 = None
-    for nm, hy in uniq:
-        s = z3.Solver()
-        s.set("timeout", timeout_ms if nm == uniq[-1][0] else max(1000, timeout_ms // 3))
-        s.add(*hy)
-        s.add(neg)
-        r = s.check()
-        if r == z3.unsat:
-            return dict(verdict="valid", backend="z3", time_s=time.time() - t0, stage=nm, n_inst=p.n_inst, n_ack=p.n_ack)
-        if r == z3.unknown:
-            unknown_smt2 = s.to_smt2()
-            if use_cvc5:
-                r5 = _run_cvc5(unknown_smt2, max(2.0, timeout_ms / 1000.0))
-                if r5 == "unsat":
-                    return dict(verdict="valid", backend="cvc5", time_s=time.time() - t0, stage=nm, n_inst=p.n_inst, n_ack=p.n_ack)
-            last = ("unknown", None)
-            continue
-        # sat
-        if nm == uniq[-1][0]:
-            m = s.model()
-            model = {}
-            for d in m.decls():
-                if d.arity() == 0:
-                    model[d.name()] = _val(m[d])
-            cellvals = []
-            for key, (arr, terms, v, dtype) in (ob.get("cells") or {}).items():
-                try:
-                    idx = tuple(_val(m.eval(t, model_completion=True)) for t in terms)
-                    vs = v if isinstance(v, tuple) else (v,)
-                    val = tuple(_val(m.eval(x, model_completion=True)) for x in vs)
-                    cellvals.append((arr, idx, val if len(val) > 1 else val[0]))
-                except Exception:
-                    pass
-            return dict(verdict="refuted", backend="z3", time_s=time.time() - t0, stage=nm, model=model, cells=cellvals,
-                        trusted=p.complete, n_inst=p.n_inst, n_ack=p.n_ack,
-                        solver_output="sat\n" + "\n".join("%s = %s" % kv for kv in sorted(model.items(), key=lambda kv: kv[0])[:60]))
-        last = ("sat-partial", None)
-    return dict(verdict="unknown", backend="z3+cvc5" if use_cvc5 else "z3", time_s=time.time() - t0, stage="all",
-                n_inst=p.n_inst, n_ack=p.n_ack, reason=last[0] if last else "")
+                parts=len(parts))
 
 
 def check_sat(formulas, timeout_ms=5000):
-    """satisfiability of a set of formulas (vacuity guard) -> 'sat' | 'unsat' | 'unknown'"""
+    """satisfiability of the LINEAR part of a set of formulas (vacuity guard) -> 'sat' | 'unsat' | 'unknown'"""
     s = z3.Solver()
     s.set("timeout", timeout_ms)
     s.add(*[f for f in formulas if not isinstance(f, Q) and core.is_linear(f)])
